@@ -341,18 +341,18 @@ Section HeapR.
 
   (* ------------------------------------------------------------------ callbacks *)
   Lemma inst_exec_from_fst : forall k c cb ops sh,
-    fst (inst_exec_from k c cb sh ops) = exec_from (fam k) c (fst sh) (map op_in ops).
+    fst (inst_exec_from k c cb sh ops) = exec_from (fam k) c (fst sh) (map (op_in k) ops).
   Proof.
     intros k c cb ops. induction ops as [|o r IH]; intro sh; [reflexivity|].
     cbn [Heap.inst_exec_from fold_left map exec_from].
-    change (fold_left (fun s o0 => inst_apply k c cb s (op_in o0)) r ?x) with (inst_exec_from k c cb x r).
+    change (fold_left (fun s o0 => inst_apply k c cb s (op_in k o0)) r ?x) with (inst_exec_from k c cb x r).
     rewrite IH. f_equal.
     destruct cb as [tr|]; cbn [Heap.inst_apply]; [|reflexivity].
-    destruct (op_in o); reflexivity.
+    destruct (op_in k o); reflexivity.
   Qed.
 
   Lemma inst_exec_sys : forall k c tr ops,
-    inst_exec k c (Some tr) ops = sys_exec (fam k) W (vars k) c tr (map op_in ops).
+    inst_exec k c (Some tr) ops = sys_exec (fam k) W (vars k) c tr (map (op_in k) ops).
   Proof.
     intros k c tr ops. unfold Heap.inst_exec, Heap.inst_exec_from, sys_exec, Heap.inst_init. cbn [Heap.tracked_of].
     generalize (d_init (fam k) c, hist_init (fam k) W tr).
@@ -363,7 +363,7 @@ Section HeapR.
   Proof.
     intros k c ops. induction ops as [|o r IH]; intro sh; [reflexivity|].
     cbn [Heap.inst_exec_from fold_left].
-    change (fold_left (fun s o0 => inst_apply k c None s (op_in o0)) r ?x) with (inst_exec_from k c None x r).
+    change (fold_left (fun s o0 => inst_apply k c None s (op_in k o0)) r ?x) with (inst_exec_from k c None x r).
     rewrite IH. reflexivity.
   Qed.
 
@@ -371,8 +371,8 @@ Section HeapR.
       detector run without any callback, and with a HistoryConceptDrift attached the whole object
       is Callbacks.sys_exec (to which every C17 theorem applies); reuses history_noninterfering. *)
   Theorem callbacks_transparent : forall k c cb ops,
-    fst (inst_exec k c cb ops) = exec (fam k) c (map op_in ops) /\
-    (forall tr, cb = Some tr -> inst_exec k c cb ops = sys_exec (fam k) W (vars k) c tr (map op_in ops)) /\
+    fst (inst_exec k c cb ops) = exec (fam k) c (map (op_in k) ops) /\
+    (forall tr, cb = Some tr -> inst_exec k c cb ops = sys_exec (fam k) W (vars k) c tr (map (op_in k) ops)) /\
     (cb = None -> snd (inst_exec k c cb ops) = hist_init (fam k) W []).
   Proof.
     intros k c cb ops. split; [|split].
@@ -391,8 +391,8 @@ Section HeapR.
     get_cfg (run_system pre h0) cl k = Some c -> uses_rng k = false ->
     let i := length (run_system pre h0) in
     exists sh, hget (run_system (pre ++ New fam V k cl cb :: post) h0) i = Some (OInst k cl cb sh) /\
-      fst sh = exec (fam k) c (map op_in (ops_of i post)) /\
-      (forall tr, cb = Some tr -> sh = sys_exec (fam k) W (vars k) c tr (map op_in (ops_of i post))).
+      fst sh = exec (fam k) c (map (op_in k) (ops_of i post)) /\
+      (forall tr, cb = Some tr -> sh = sys_exec (fam k) W (vars k) c tr (map (op_in k) (ops_of i post))).
   Proof.
     intros pre post h0 k cl cb c Hc Hu i.
     exists (inst_exec k c cb (ops_of i post)).
@@ -529,6 +529,7 @@ Section HeapR.
       = Some (OInst k cl cb (fst (rng_exec k c cb (reseed k c r) (ops_of i mid)))).
   Proof.
     intros pre gap mid tail h0 k cb c r Hs Hu Hr h1 cl h2 i Hqg Hog Hqm Ht.
+    change (get_rng h1 = Some r) in Hr.
     replace (pre ++ NewCfg fam V k c :: gap ++ New fam V k cl cb :: mid ++ tail)
       with ((pre ++ NewCfg fam V k c :: gap) ++ New fam V k cl cb :: mid ++ tail)
       by (rewrite <- app_assoc; reflexivity).
@@ -536,13 +537,14 @@ Section HeapR.
     { rewrite run_app. reflexivity. }
     pose proof (proj1 (get_rng_iff _ _) Hr) as Hr0. pose proof (hget_lt _ _ _ Hr0) as Hl0.
     assert (hget (step h1 (NewCfg fam V k c)) cl = Some (OCfg k c)) as Hcfg.
-    { cbn [Heap.step]. unfold Heap.do_newcfg. fold h1. rewrite Hs, Hr.
+    { cbn [Heap.step]. unfold Heap.do_newcfg. rewrite Hs, Hr.
       replace cl with (length (hset h1 rng_loc (ORng (reseed k c r)))) by apply length_hset.
       apply hget_alloc_new. }
     assert (get_rng (step h1 (NewCfg fam V k c)) = Some (reseed k c r)) as Hrs.
-    { apply get_rng_iff. cbn [Heap.step]. unfold Heap.do_newcfg. fold h1. rewrite Hs, Hr.
+    { apply get_rng_iff. cbn [Heap.step]. unfold Heap.do_newcfg. rewrite Hs, Hr.
       eapply hget_alloc_old. apply hget_hset_same. exact Hl0. }
-    apply (kswin_isolated_given_rng (pre ++ NewCfg fam V k c :: gap) mid tail h0 k cl cb c (reseed k c r)); rewrite ?E.
+    pose proof (kswin_isolated_given_rng (pre ++ NewCfg fam V k c :: gap) mid tail h0 k cl cb c (reseed k c r)) as K.
+    cbn zeta in K. rewrite E in K. apply K.
     - apply get_cfg_run. apply get_cfg_iff. exact Hcfg.
     - exact Hu.
     - apply (quiet_keeps_rng gap _ i); assumption.
@@ -579,18 +581,18 @@ Section HeapR.
   Qed.
 
   (** config=None: a fresh configuration object per constructor call, never shared *)
-  Theorem default_config_fresh : forall (h : heap) k cb r, get_rng h = Some r \/ seeds k = false ->
+  Theorem default_config_fresh : forall (h : heap) k cb,
     let h' := step h (NewD fam V k cb) in
     hget h' (length h) = Some (OCfg k (dflt k)) /\
     hget h' (S (length h)) = Some (OInst k (length h) cb (inst_init k (dflt k) cb)) /\
     length h' = S (S (length h)).
   Proof.
-    intros h k cb r _ h'. subst h'. cbn [Heap.step].
+    intros h k cb h'. subst h'. cbn [Heap.step].
     assert (length (do_newcfg h k (dflt k)) = S (length h)) as Hl.
     { unfold Heap.do_newcfg. rewrite length_alloc. destruct (seeds k); [destruct (get_rng h)|]; rewrite ?length_hset; reflexivity. }
     assert (hget (do_newcfg h k (dflt k)) (length h) = Some (OCfg k (dflt k))) as Hc.
-    { unfold Heap.do_newcfg. destruct (seeds k); [destruct (get_rng h)|];
-        try (rewrite <- (length_hset h rng_loc (ORng (reseed k (dflt k) r0)))); apply hget_alloc_new. }
+    { unfold Heap.do_newcfg. destruct (seeds k); [destruct (get_rng h) as [r1|]|];
+        try (rewrite <- (length_hset h rng_loc (ORng (reseed k (dflt k) r1)))); apply hget_alloc_new. }
     unfold Heap.do_new. rewrite (proj2 (get_cfg_iff _ _ _ _) Hc). repeat split.
     - apply hget_alloc_old. exact Hc.
     - rewrite <- Hl. apply hget_alloc_new.
@@ -608,5 +610,76 @@ Section HeapR.
       induction s as [|o r IH]; intro h; [reflexivity|].
       destruct o; cbn [Heap.sys_trace filter length]; rewrite IH; reflexivity.
     Qed.
+
+    Lemma sys_trace_app : forall a b (h : heap),
+      sys_trace (a ++ b) h = sys_trace a h ++ sys_trace b (run_system a h).
+    Proof.
+      induction a as [|o r IH]; intros b h; [reflexivity|].
+      change (run_system (o :: r) h) with (run_system r (step h o)).
+      destruct o; cbn [app Heap.sys_trace]; rewrite IH; reflexivity.
+    Qed.
+
+    (** the entry the trace records for a call is what the theorems speak about: the addressed
+        instance in the heap reached by the schedule up to and including that call *)
+    Lemma sys_trace_last : forall s (h : heap) o i, (exists v, o = Update fam V i v) \/ o = Reset fam V i ->
+      sys_trace (s ++ [o]) h = sys_trace s h ++ [observe_at fam W rng O ob (run_system (s ++ [o]) h) i].
+    Proof.
+      intros s h o i Ho. rewrite sys_trace_app, run_app.
+      destruct Ho as [[v ->]| ->]; reflexivity.
+    Qed.
   End Trace.
 End HeapR.
+
+(** ---------------------------------------------------------------------------------------
+    A tiny concrete family used for the non-vacuity / refutation examples (vm_compute).
+    class 0: running sum with an alarm threshold (no generator);
+    class 1: consumes the generator at every update and stores value + draw; its configuration
+             constructor seeds the generator with the configuration's value. *)
+Module Toy.
+  Local Open Scope Z_scope.
+  Definition SumD : Detector := {|
+    d_cfg := Z; d_in := Z; d_st := (Z * Z * bool)%type;
+    d_init := fun _ => (0, 0, false);
+    d_step := fun c s v => let t := fst (fst s) + v in (t, snd (fst s) + 1, c <? t);
+    d_reset := fun _ _ => (0, 0, false);
+    d_drift := fun s => snd s; d_warning := fun _ => false; d_has_warning_status := false;
+    d_ninst := fun s => snd (fst s) |}.
+  Definition RndD : Detector := {|
+    d_cfg := Z; d_in := (Z * Z)%type; d_st := list Z;
+    d_init := fun _ => [];
+    d_step := fun _ s vd => s ++ [fst vd + snd vd];
+    d_reset := fun _ _ => [];
+    d_drift := fun _ => false; d_warning := fun _ => false; d_has_warning_status := false;
+    d_ninst := fun s => Z.of_nat (List.length s) |}.
+  Definition fam (k : nat) : Detector := match k with O => SumD | S _ => RndD end.
+  Definition uses_rng (k : nat) : bool := match k with O => false | S _ => true end.
+  Definition seeds := uses_rng.
+  Definition inp : forall k, Z -> d_in (fam k) :=
+    fun k => match k with O => fun v => v | S _ => fun v => (v, 0) end.
+  Definition next (r : Z) : Z := (r * 5 + 3) mod 16.
+  Definition draw : forall k, d_cfg (fam k) -> d_st (fam k) -> Z -> Z -> d_in (fam k) * Z :=
+    fun k => match k with O => fun _ _ v r => (v, r) | S _ => fun _ _ v r => ((v, r), next r) end.
+  Definition reseed : forall k, d_cfg (fam k) -> Z -> Z :=
+    fun k => match k with O => fun _ r => r | S _ => fun c _ => c end.
+  Definition dflt : forall k, d_cfg (fam k) := fun k => match k with O => 10 | S _ => 7 end.
+  Definition vars : forall k, d_st (fam k) -> string -> Z :=
+    fun k => match k with O => fun s _ => fst (fst s) | S _ => fun s _ => Z.of_nat (List.length s) end.
+
+  Definition run := run_system fam Z Z vars Z uses_rng inp draw seeds reseed dflt.
+  Definition h0 : heap fam Z Z := [ORng fam Z Z 1].
+  Definition at_ (h : heap fam Z Z) (i : loc) := hget fam Z Z h i.
+  Definition solo := inst_exec fam Z Z vars inp.
+  Definition solo_rng := rng_exec fam Z Z vars Z draw.
+  Definition quietb := quietb fam Z Z vars Z uses_rng inp draw seeds reseed dflt.
+  Definition st := Heap.step fam Z Z vars Z uses_rng inp draw seeds reseed dflt.
+  (** the detector state of an object of class 1 (None for anything else) *)
+  Definition rnd_of (o : option (obj fam Z Z)) : option (list Z) :=
+    match o with
+    | Some (OInst _ _ _ k _ _ sh) =>
+        match k return d_st (fam k) * hist (fam k) Z -> option (list Z) with
+        | O => fun _ => None
+        | S _ => fun sh => Some (fst sh)
+        end sh
+    | _ => None
+    end.
+End Toy.
